@@ -60,8 +60,10 @@ for sd in seeds:
     res['demo_with_patch'] = {'cmd': cmd, 'rc': rc, 'passed': np_, 'failed': nf}
     if rc == 0 or nf == 0:
         done('demo-does-not-fail-with-patch'); continue
-    if sh(f'git apply -R {d}/patch.diff').returncode != 0:
-        done('cannot-revert'); continue
+    # back to the clean tree plus the demonstration only (a reverse apply can land on a look-alike hunk)
+    reset()
+    if sh(f'git apply {d}/demo.diff').returncode != 0:
+        done('demo-does-not-apply-alone'); continue
     rc, np_, nf, out = tests(cmd)
     res['demo_without_patch'] = {'cmd': cmd, 'rc': rc, 'passed': np_, 'failed': nf}
     done('valid' if (rc == 0 and np_ >= 1) else 'demo-fails-without-patch')
